@@ -56,7 +56,8 @@ class MosFile:
         """
         try:
             xml = ElementTree.parse(mos_file_path).getroot()
-        except ElementTree.ParseError as e:
+        except (ElementTree.ParseError, LookupError, ValueError) as e:
+            # LookupError / ValueError: declared encoding the parser cannot decode
             raise MosInvalidXML(e) from e
         if cls in (MosFile, ElementAction):
             return cls._classify(xml)
@@ -74,7 +75,8 @@ class MosFile:
         """
         try:
             xml = ElementTree.fromstring(mos_xml_string)
-        except ElementTree.ParseError as e:
+        except (ElementTree.ParseError, LookupError, ValueError) as e:
+            # LookupError / ValueError: declared encoding the parser cannot decode
             raise MosInvalidXML(e) from e
         if cls in (MosFile, ElementAction):
             return cls._classify(xml)
